@@ -1,5 +1,6 @@
 import LarkVerif.LR
 import LarkVerif.LRError
+import LarkVerif.LRComplete
 import LarkVerif.LR0Viable
 /-! # The LALR driver has the correct-prefix property (C08: "every terminal in `accepts` can legally come next"; errors at the first offending token)
 
@@ -90,6 +91,40 @@ theorem fed_prefix_is_viable {G : Grammar} {T : Table} {A : Auto} {s0 start : Na
     | error => rw [hres] at hf; simp at hf
     | crash => rw [hres] at hf; simp at hf
     | loop => rw [hres] at hf; simp at hf
+
+/-- the invariant along `feedAll` -/
+theorem feedAll_inv {G : Grammar} {T : Table} {s0 : Nat} (hT : TableSafe G T s0) (F : Nat) :
+    ∀ (toks : List Nat) (cfg cfg' : Config) (consumed : List Nat), Inv G T cfg consumed →
+      feedAll T F cfg toks = Outcome.shifted cfg' → Inv G T cfg' (consumed ++ toks) := by
+  intro toks
+  induction toks with
+  | nil =>
+    intro cfg cfg' consumed hinv h
+    simp only [feedAll, Outcome.shifted.injEq] at h
+    subst h; simpa using hinv
+  | cons t ts ih =>
+    intro cfg cfg' consumed hinv h
+    simp only [feedAll] at h
+    cases hres : reduceLoop T t false F cfg with
+    | shifted c1 =>
+      rw [hres] at h
+      have hinv' := (reduceLoop_sound hT t false F cfg consumed hinv).1 c1 hres
+      have := ih c1 cfg' (consumed ++ [t]) hinv' h
+      simpa [List.append_assoc] using this
+    | accept v => exact absurd hres (reduceLoop_no_accept T t F cfg v)
+    | error => rw [hres] at h; cases h
+    | crash => rw [hres] at h; cases h
+    | loop => rw [hres] at h; cases h
+
+/-- **`UnexpectedToken` is raised no later than at the first offending token**: a token prefix the driver consumes without raising begins a sentence. -/
+theorem consumed_prefix_begins_sentence {G : Grammar} {T : Table} {A : Auto} {s0 start : Nat} (hT : TableSafe G T s0) (h : checkLR0 G A = true)
+    (hP : Productive G) (h0 : T.start < A.items.length) (hstart : ∀ x ∈ A.kernelOf T.start, x.2 = 0 ∧ x.1.lhs = start ∧ x.1 ∈ G.rules)
+    (hne : ∀ q, q < A.items.length → A.kernelOf q ≠ []) (hTA : TableOf T A) (F : Nat) (pre : List Nat) (cfg' : Config)
+    (hfeed : feedAll T F ⟨[T.start], []⟩ pre = Outcome.shifted cfg') :
+    ∃ w, DerivesSeq G [Sym.nt start] (pre ++ w) := by
+  have hinv0 : Inv G T ⟨[T.start], []⟩ [] := ⟨StackPath.base, by simp, rfl⟩
+  have hinv := feedAll_inv hT F pre _ cfg' [] hinv0 hfeed
+  simpa using consumed_is_viable_prefix h hP h0 hstart hne hTA hinv
 
 /-- at the end of input the driver never shifts -/
 theorem reduceLoop_end_no_shift (T : Table) (t : Nat) : ∀ fuel cfg cfg',
